@@ -387,6 +387,22 @@ func run(c Case, c09 bool) (feat map[string]int, err error) {
 		switch op.K {
 		case "sub":
 			if s.gone {
+				// The id of a subscriber that left is free.  An actor spawned under it later and subscribed
+				// is a subscriber like any other, whatever stream or engine remember about the id's former
+				// holder.  The barrier makes the moment well-defined: the stream has forwarded (and, finding
+				// nobody, dropped) everything that was under way to the former holder.
+				if err := h.barrier(); err != nil {
+					return nil, err
+				}
+				s.pid = e.SpawnFunc(s.receive, "sub", actor.WithID(fmt.Sprint(op.I)))
+				s.gone = false
+				pid = s.pid
+				if op.Copy {
+					pid = &actor.PID{Address: s.pid.Address, ID: s.pid.ID}
+				}
+				e.Subscribe(pid)
+				h.model[op.I] = true
+				h.note("subscriber-respawned-under-the-id-of-one-that-left")
 				continue
 			}
 			if h.model[op.I] {
